@@ -347,6 +347,23 @@ fn materialise(input: &Input) -> Option<(Vec<u8>, String, usize)> {
                     tag.push_str("+32KiB-body");
                 }
             }
+            // one case in sixteen is replaced by a module whose only function
+            // nests 100 000 blocks (worker threads have small stacks)
+            if n_mut == 0 && bytes.get(4).map(|x| x % 16 == 5).unwrap_or(false) {
+                let depth = 100_000usize;
+                let mut body = vec![0u8];
+                body.extend(std::iter::repeat([0x02u8, 0x40]).take(depth).flatten());
+                body.extend(std::iter::repeat(0x0bu8).take(depth + 1));
+                let mut m = vec![0x00, 0x61, 0x73, 0x6d, 0x01, 0x00, 0x00, 0x00];
+                m.extend_from_slice(&[0x01, 0x04, 0x01, 0x60, 0x00, 0x00, 0x03, 0x02, 0x01, 0x00, 0x07, 0x05, 0x01, 0x01, b'f', 0x00, 0x00]);
+                let mut code = vec![0x01];
+                write_leb(body.len() as u64, &mut code);
+                code.extend(body);
+                m.push(0x0a);
+                write_leb(code.len() as u64, &mut m);
+                m.extend(code);
+                return Some((m, format!("gen:{}+deep-nesting+32KiB-body", gen), 1));
+            }
             Some((b, format!("gen:{}+{}mut{}", gen, n_mut, tag), nf))
         }
         Input::Wasm { origin, bytes } => {
@@ -433,6 +450,13 @@ pub fn check(ctx: &Ctx, input: &Input) -> CaseResult {
                 }
             }
         }
+        // the deeply nested input is only run in child processes (a build
+        // that cannot take it must not take the whole check down)
+        if origin.contains("+deep-nesting") {
+            out.label("input:100000-nested-blocks");
+            out.nontrivial = true;
+            return Ok(out);
+        }
     }
     let mut plain_serial = String::new();
     // both builds also run the GC pass between parse and emit (entities are
@@ -512,6 +536,12 @@ pub fn check(ctx: &Ctx, input: &Input) -> CaseResult {
 fn run(ctx: &Ctx) {
     #[cfg(feature = "parallel")]
     par::install_logger();
+    // an embedding application may have set up rayon's global pool before
+    // walrus is first used: do so (parsing must not depend on being first)
+    #[cfg(feature = "parallel")]
+    {
+        let _ = rayon::ThreadPoolBuilder::new().num_threads(3).build_global();
+    }
     let plans = [
         GenPlan {
             gen: "par-many",
